@@ -422,6 +422,8 @@ class FileStorage(
         checked = 0
 
         while checked < max_checked:
+            if pos <= 4:
+                return 0  # only empty transactions: nothing to check against
             self._file.seek(pos - 8)
             rstl = self._file.read(8)
             tl = u64(rstl)
